@@ -135,7 +135,13 @@ def gen_cases(rng, tier):
         cfg["turns"].append(G.clean_turn(rng, cfg, len(cfg["turns"]) + 1))
         if rng.random() < 0.4:
             G.collapse_texts(rng, cfg, p_bot=0.5, p_user=0.4)  # the texts after a fault repeat earlier ones
+        if rng.random() < 0.2:
+            G.inject_propagating(rng, cfg)  # ... and one turn ends by a failure that leaves `generate` by design
         cases.append(cfg)
+    # failures that PROPAGATE (LLMCallException from the LLM call of a rail / of the generation, cancellation of the request at a
+    # chosen step): the call returns nothing, the caller goes on from the last state it was given on the same LLMRails instance -
+    # "the failure does not poison the conversation: the next turn is processed with all rails active"
+    cases.extend(G.propagating_cases(rng, tier, "both"))
     # a fault after the rails' variables were set, then texts that repeat the visible / the hidden / an earlier rejected one
     # (user text and LLM text together), see pipeline_cases.REPEAT_PATTERNS
     cases.extend(G.repeat_cases(rng, tier, "both", patterns=[G.REPEAT_PATTERNS[i] for i in (0, 1, 5)] if tier == "quick" else None))
@@ -155,8 +161,11 @@ def expected_in(case, tc):
 
 
 def turn_oracle(case, tc, to, after_fault):
-    # "`generate` still returns normally"
+    # "`generate` still returns normally" - but "LLM provider failures are excluded (they surface as LLMCallException by design)", and
+    # so does the cancellation of the request's task: such a turn returns nothing; it must not poison the next one (checked below)
     if to["raised"]:
+        if G.P.propagating(tc) and to["raised"].split(":")[0] in ("LLMCallException", "CancelledError"):
+            return None
         return f"[raised] generate raised {to['raised']}"
     steps = to["steps"]
     rep = to["reply"]
